@@ -292,6 +292,9 @@ class SColl:
 def coll_method(I, c: SColl, name, args, kwargs):
     if name in ("append", "add"):
         (x,) = args
+        pr = getattr(c.etype, "promise", None)
+        if pr is not None and hasattr(x, "ghost") and "promise" not in x.ghost:
+            x.ghost["promise"] = pr
         c.members.append([True, x])
         return None
     if name in ("remove", "discard"):
